@@ -15,7 +15,7 @@ import tempfile
 
 import vlib
 
-PROOF_MODULES = []
+PROOF_MODULES = ["C15/CSound.vo", "C15/CIntDiv.vo", "C15/CModelProofs.vo", "C15/CParseProofs.vo"]
 OBLIGATIONS = [
     "C15/P_cprint_parse.v", "C15/P_cprint_parse_guarded.v", "C15/P_cprint_parse_refuted.v",
     "C15/P_no_int_div_guarded.v", "C15/P_no_int_div_refuted.v",
@@ -561,6 +561,8 @@ SHARED_DEPS = ["Base/Prelude.vo", "Base/Word64.vo", "Num/NumDefs.vo", "Gen/TypeC
 
 
 def build_own(ctx):
+    if vlib.in_project(OWN_FILES[0]):
+        return True   # built by `make` through ctx.prove(PROOF_MODULES, ...)
     coq = vlib.COQ
     with vlib.Lock(os.path.join(vlib.WORK, "c15-coq.lock")):
         newest = max((os.path.getmtime(os.path.join(coq, d)) for d in SHARED_DEPS if os.path.exists(os.path.join(coq, d))), default=0)
